@@ -1,7 +1,7 @@
 ---- MODULE Race ----
 (* threadpool.c at pthread-call granularity: NC clients (caller + result handler each) sharing one pool. *)
 EXTENDS Integers, Sequences, FiniteSets, TLC
-CONSTANTS MaxThreads, NC, Jobs, Ordered, MaxSpurious
+CONSTANTS MaxThreads, NC, Jobs, Ordered, MaxSpurious, Mixed
 Workers == 1..MaxThreads
 Callers == (MaxThreads + 1)..(MaxThreads + NC)
 Handlers == (MaxThreads + NC + 1)..(MaxThreads + 2 * NC)
@@ -11,6 +11,8 @@ Clients == 1..NC
 None == 0
 Objs == {<<"pool", 0>>} \cup {<<"rq", c>> : c \in Clients} \cup {<<"thr", w>> : w \in Workers}
 JobId(c, j) == c * 100 + j
+\* all clients alike, or (Mixed) client 1 ordered (a writer) and the others unordered (sorters) on one pool
+OrdOf(c) == IF Mixed THEN c = 1 ELSE Ordered
 
 Procs == Workers \cup Callers \cup Handlers
 Loc == {<<f, w>> : f \in {"running","cb","res","trq","next"}, w \in Workers}
@@ -75,12 +77,12 @@ variables j = 1; thr = None; isnew = FALSE;
   n5: if (isnew) { created := created \cup {thr}; hb := Inherit(Acc(hb, self, {}, ThrFields(thr)), self, thr); }
       else { hb := Acc(hb, self, {<<"running",thr>>, <<"next",thr>>}, {}); };
   d1: lock(<<"thr",thr>>);
-  d2: hb := Acc(hb, self, {}, {<<"trq",thr>>, <<"cb",thr>>, <<"running",thr>>}); trq[thr] := IF Ordered THEN None ELSE Cl(self); cb[thr] := JobId(Cl(self), j); running[thr] := TRUE; signal(<<"thr",thr>>);
+  d2: hb := Acc(hb, self, {}, {<<"trq",thr>>, <<"cb",thr>>, <<"running",thr>>}); trq[thr] := IF OrdOf(Cl(self)) THEN None ELSE Cl(self); cb[thr] := JobId(Cl(self), j); running[thr] := TRUE; signal(<<"thr",thr>>);
   d3: unlock(<<"thr",thr>>);
   d4: lock(<<"rq",Cl(self)>>);
-  d5: hb := Acc(hb, self, {<<"nthreads",Cl(self)>>, <<"finished",Cl(self)>>}, {<<"nthreads",Cl(self)>>} \cup (IF Ordered THEN {<<"rqlist",Cl(self)>>} \cup LastNext(rqueue[Cl(self)]) ELSE {}));
+  d5: hb := Acc(hb, self, {<<"nthreads",Cl(self)>>, <<"finished",Cl(self)>>}, {<<"nthreads",Cl(self)>>} \cup (IF OrdOf(Cl(self)) THEN {<<"rqlist",Cl(self)>>} \cup LastNext(rqueue[Cl(self)]) ELSE {}));
       nthreads[Cl(self)] := nthreads[Cl(self)] + 1;
-      if (Ordered) { rqueue[Cl(self)] := Append(rqueue[Cl(self)], thr); signal(<<"rq",Cl(self)>>); };
+      if (OrdOf(Cl(self))) { rqueue[Cl(self)] := Append(rqueue[Cl(self)], thr); signal(<<"rq",Cl(self)>>); };
   d6: unlock(<<"rq",Cl(self)>>); j := j + 1;
  };
  f1: lock(<<"rq",Cl(self)>>);
@@ -315,7 +317,7 @@ d1(self) == /\ pc[self] = "d1"
 
 d2(self) == /\ pc[self] = "d2"
             /\ hb' = Acc(hb, self, {}, {<<"trq",thr[self]>>, <<"cb",thr[self]>>, <<"running",thr[self]>>})
-            /\ trq' = [trq EXCEPT ![thr[self]] = IF Ordered THEN None ELSE Cl(self)]
+            /\ trq' = [trq EXCEPT ![thr[self]] = IF OrdOf(Cl(self)) THEN None ELSE Cl(self)]
             /\ cb' = [cb EXCEPT ![thr[self]] = JobId(Cl(self), j[self])]
             /\ running' = [running EXCEPT ![thr[self]] = TRUE]
             /\ IF waiters[(<<"thr",thr[self]>>)] # {}
@@ -349,9 +351,9 @@ d4(self) == /\ pc[self] = "d4"
                             j, thr, isnew, myrq, t, r >>
 
 d5(self) == /\ pc[self] = "d5"
-            /\ hb' = Acc(hb, self, {<<"nthreads",Cl(self)>>, <<"finished",Cl(self)>>}, {<<"nthreads",Cl(self)>>} \cup (IF Ordered THEN {<<"rqlist",Cl(self)>>} \cup LastNext(rqueue[Cl(self)]) ELSE {}))
+            /\ hb' = Acc(hb, self, {<<"nthreads",Cl(self)>>, <<"finished",Cl(self)>>}, {<<"nthreads",Cl(self)>>} \cup (IF OrdOf(Cl(self)) THEN {<<"rqlist",Cl(self)>>} \cup LastNext(rqueue[Cl(self)]) ELSE {}))
             /\ nthreads' = [nthreads EXCEPT ![Cl(self)] = nthreads[Cl(self)] + 1]
-            /\ IF Ordered
+            /\ IF OrdOf(Cl(self))
                   THEN /\ rqueue' = [rqueue EXCEPT ![Cl(self)] = Append(rqueue[Cl(self)], thr[self])]
                        /\ IF waiters[(<<"rq",Cl(self)>>)] # {}
                              THEN /\ \E wk \in waiters[(<<"rq",Cl(self)>>)]:
@@ -921,7 +923,7 @@ Range(f) == {f[i] : i \in DOMAIN f}
 AllDone == \A p \in Callers \cup Handlers \cup Workers : pc[p] = "Done"
 ExactlyOnce == \A c \in Clients : closed[c] => (Len(delivered[c]) = Jobs /\ Range(delivered[c]) = {JobId(c, jj) : jj \in 1..Jobs})
 NoDup == \A c \in Clients : Cardinality(Range(delivered[c])) = Len(delivered[c]) /\ Range(delivered[c]) \subseteq {JobId(c, jj) : jj \in 1..Jobs}
-InOrder == Ordered => \A c \in Clients : \A i \in 1..Len(delivered[c]) : delivered[c][i] = JobId(c, i)
+InOrder == \A c \in Clients : OrdOf(c) => \A i \in 1..Len(delivered[c]) : delivered[c][i] = JobId(c, i)
 Bounded == pcount <= MaxThreads /\ Cardinality(created) <= MaxThreads
 NoRace == hb.race = <<>>
 NoDeadlock == AllDone \/ ENABLED (\E p \in Callers \cup Handlers \cup Workers : caller(p) \/ worker(p) \/ rh(p) \/ wait(p))
